@@ -202,3 +202,12 @@ func clip(s string, n int) string {
 	}
 	return s
 }
+
+// RunQuiet explores a harness without reporting violations (used for lemmas).
+func (s *Suite) RunQuiet(h Harness) *gose.Stats {
+	opts := h.Opts
+	if opts.Timeout == 0 {
+		opts.Timeout = 20 * time.Second
+	}
+	return s.prog.Explore(gose.ModPath+"/"+h.Pkg, h.Func, opts)
+}
